@@ -951,11 +951,55 @@ pub fn adaptive_constants(ts: u16) -> BoxedStrategy<crate::world2::AfConstants> 
         .boxed()
 }
 
+/// every constant over its whole valid range (any divisor as group size, accumulator maxima up to u32::MAX / group size)
+pub fn all_valid_constants(ts: u16) -> BoxedStrategy<crate::world2::AfConstants> {
+    let mut divisors: Vec<u16> = vec![];
+    let mut d = 1u32;
+    while d * d <= ts as u32 {
+        if ts as u32 % d == 0 {
+            divisors.push(d as u16);
+            divisors.push((ts as u32 / d) as u16);
+        }
+        d += 1;
+    }
+    divisors.sort();
+    divisors.dedup();
+    (
+        prop_oneof![3 => 1u16..=60, 1 => 1u16..=65_534],
+        any::<u16>(),
+        0u16..10_000,
+        prop_oneof![1 => Just(0u32), 6 => 1u32..100_000, 1 => Just(99_999u32)],
+        (any::<u32>(), 0u8..4),
+        prop::sample::select(divisors),
+        any::<u32>(),
+    )
+        .prop_map(move |(filter_period, extra, reduction_factor, adaptive_fee_control_factor, (macc, macc_kind), tick_group_size, major)| {
+            let cap = (u32::MAX as u64 / tick_group_size as u64) as u32;
+            let max_volatility_accumulator = match macc_kind {
+                0 => macc % (cap.min(3_000_000) + 1),
+                1 => cap - macc % (cap / 16 + 1),
+                _ => macc % cap.saturating_add(1).max(1),
+            };
+            let decay_period = (filter_period as u32 + 1 + extra as u32 % (65_535 - filter_period as u32)).min(65_535) as u16;
+            crate::world2::AfConstants {
+                filter_period,
+                decay_period,
+                reduction_factor,
+                adaptive_fee_control_factor,
+                max_volatility_accumulator,
+                tick_group_size,
+                major_swap_threshold_ticks: (1 + major % ((ts as u32 * 88).min(65_535))) as u16,
+            }
+        })
+        .boxed()
+}
+
+
 /// turn a fraction of generated specs into adaptive-fee pools
 pub fn with_adaptive(spec: BoxedStrategy<WorldSpec>, one_in: u32) -> BoxedStrategy<WorldSpec> {
     spec.prop_flat_map(move |s| {
         let ts = s.tick_spacing;
-        (Just(s), prop_oneof![(one_in - 1) => Just(None), 1 => adaptive_constants(ts).prop_map(Some)])
+        (Just(s), prop_oneof![(one_in - 1) * 4 => Just(None), 3 => adaptive_constants(ts).prop_map(Some), 1 => all_valid_constants(ts).prop_map(Some)])
     })
     .prop_map(|(mut s, k)| {
         s.adaptive = k;
